@@ -699,6 +699,9 @@ func (g *c18Gen) containedOp(cf protoreflect.FieldDescriptor) (C18Op, bool) {
 			continue
 		}
 		op.Contained = &C18Contained{Idx: k, Type: tn, Inner: op.Path, Single: single}
+		if op.Value != nil && g.r.p(0.15) {
+			op.BadUTF8 = true // marshal fault: the write-back into the Any must fail, and leave everything as it was
+		}
 		op.Path = op.Path[:i] + prefix + op.Path[i+len(tn):]
 		op.Note = strings.TrimPrefix(op.Note+"+contained", "+")
 		// keep the generator's copy in step with what the model will say
@@ -730,7 +733,11 @@ func genC18(seed uint64, run int, tier string) *Case {
 	var msgs []proto.Message
 	for i := 0; i < nRes; i++ {
 		rg := &resGen{r: r, maxDepth: 3 + r.n(2), fill: 0.3 + 0.4*r.Float64(), budget: 60 + r.n(200)}
-		m := rg.genResource(pick(r, rootTypes))
+		t := pick(r, rootTypes)
+		if i > 0 && r.p(0.5) {
+			t = string(msgs[0].ProtoReflect().Descriptor().Name()) // same type, other content: paths carry over
+		}
+		m := rg.genResource(t)
 		msgs = append(msgs, m)
 		c.Resources = append(c.Resources, encodeMessage(m))
 	}
@@ -739,7 +746,26 @@ func genC18(seed uint64, run int, tier string) *Case {
 			// the same history on a private copy of the same resource: maximal sharing of compiled expressions
 			src := c.C18.Clients[0]
 			n := 1 + r.n(len(src.Ops))
-			c.C18.Clients = append(c.C18.Clients, C18Client{Res: src.Res, Ops: append([]C18Op(nil), src.Ops[:n]...)})
+			res := src.Res
+			if nRes > 1 && r.p(0.4) {
+				// ... or on ANOTHER resource: the same compiled expressions meet data of another shape
+				// (other choice alternatives, other contained types), where a step may be invalid
+				res = (src.Res + 1) % nRes
+			}
+			ops := append([]C18Op(nil), src.Ops[:n]...)
+			if res != src.Res {
+				for k := range ops {
+					if ops[k].Contained != nil {
+						// the decomposition was made for the other resource: mark it as not applicable, so that
+						// the operation is judged on its failure path only
+						cc := *ops[k].Contained
+						cc.Type = "?"
+						ops[k].Contained = &cc
+					}
+					ops[k].BadUTF8 = false
+				}
+			}
+			c.C18.Clients = append(c.C18.Clients, C18Client{Res: res, Ops: ops})
 			continue
 		}
 		ri := r.n(nRes)
